@@ -34,7 +34,9 @@ REQUESTS = [
     "query Q($s: Boolean!) { num @skip(if: $s) color a @include(if: $s) { a } }",
     "{ two(a: 1, b: 2) num }",
     "query Q($s: Boolean!) { alist { id name @include(if: $s) } }",
+    "{ a { peer { ... on A { peer { id } } } } num }",
 ]
+SELF_NESTED = "{ a { peer { ... on A { peer { id } } } } num }"
 SUSPEND_HOOKS = {"{ two(a: 1, b: 2) num }"}
 MAX_I = {"quick": 1, "thorough": 2}
 CAP = {"quick": 60000, "thorough": 400000}
@@ -178,6 +180,12 @@ def run_shard(item):
     a1, a2, a3 = (build_root(schema, "A", v, depth=1) for v in (5, 6, 7))
     root = dict(root)
     root["alist"] = [a1, a2]  # a homogeneous list: the items share one runtime type (and one collected sub-selection)
+    # the same Type.field nested below itself: a -> A.peer (an A) -> A.peer
+    inner = dict(build_root(schema, "A", 9, depth=1), peer=dict(build_root(schema, "A", 8, depth=0) or {"id": "deep", "_typename": "A"}))
+    top = dict(build_root(schema, "A", 10, depth=1))
+    top["peer"] = inner
+    if REQUESTS[ri] == SELF_NESTED:
+        root["a"] = top
     varsets = [None]
     if located.operations[0].vars:
         varsets = [{"s": True}, {"s": False}]
